@@ -17,4 +17,7 @@ TEXTS = {
     "C15": {"level": L3 + " Before every schedule request ListPipelines is evaluated on the same state: schedulable iff accepted, running iff a job holds a slot; every accepted job is reported by id and in the list; created <= start <= end.", "note": L3_NOTE, "technique": T},
     "C16": {"level": L3 + " With a symbolic RELOAD event (new arbitrary valid configuration, rewired tasks): the graph and env handed to the scheduler at start equal the definition at acceptance; a reload changes no job field, starts/cancels nothing and strands nobody.", "note": L3_NOTE, "technique": T},
 }
+TEXTS["C04"] = {"level": L3 + " Monitors: return value and effect of CancelJob for every job state (unknown id is covered by the step harness); a job whose cancel was acknowledged while waiting never spawns; a run that returns canceled is reported canceled.", "note": L3_NOTE, "technique": T}
+TEXTS["C17"] = {"level": "Symbolic execution of definition.validate/setDefaults/Validate, QueueStrategy.UnmarshalYAML, TaskDef/PipelineDef/PipelinesDef.Equals and LoadRecursively/Load over arbitrary definitions built from go/types (all strings symbolic, shapes case-split within bounds): acceptance iff a reference validity predicate; Equals iff structural equality (fields enumerated by type, so future fields are included); loading two files in both enumeration orders gives the same result (2-safety in one path). z3 (BV+String) decides every path; counterexamples are replayed natively by running the same harness with the solver's values.",
+                "note": "Bounds: <=2 tasks, <=2 env entries, <=2 script lines / dependencies (pipeline-level Equals: 1 each in quick, env 2 in thorough), <=2 pipelines, 2 files. Trusted: yaml.v2 decoding (stub returning an arbitrary struct), globbing, os.Open. 'loads to exactly what it says' (YAML semantics) is outside.", "technique": T}
 NOT_APPLICABLE = {}
